@@ -508,7 +508,8 @@ def confirm_writer(ctx, b, d, case, key):
         if rej:
             break
     if not rej:
-        raise vlib.MachineryFault("writer-sequence rejection not reproducible for %s" % json.dumps(case)[:300])
+        ctx.unreproducible("writer-sequence rejection not reproducible for %s" % json.dumps(case)[:300])
+        return
     slim = json.loads(json.dumps(w))
     for fr in slim.get("frames", []):
         fr["blocks"] = fr["blocks"][:8]
